@@ -386,11 +386,149 @@ fn run_pool(args: &[&str]) -> String {
     out.join(" ; ")
 }
 
+/// third part: what `process_sliced_packet` reads from the slice, through the same public
+/// accessors (`vlan_ids`, header `source` / `destination` / `identification` /
+/// `fragments_offset` / `more_fragments`, the extension iterator, `payload()`), rendered as
+/// ver/vlans/src/dst/ident/proto/chan:offset:mf:payload window; "-" = not fragmenting.
+fn key_str(frame: &[u8], slice: &SlicedPacket, chan: u32) -> String {
+    let vl = slice.vlan_ids();
+    let vls = if vl.is_empty() {
+        "-".to_string()
+    } else {
+        vl.iter()
+            .map(|v| v.value().to_string())
+            .collect::<Vec<_>>()
+            .join(".")
+    };
+    match &slice.net {
+        Some(NetSlice::Ipv4(ipv4)) => {
+            let h = ipv4.header();
+            if !h.is_fragmenting_payload() {
+                return "-".to_string();
+            }
+            format!(
+                "4/{}/{}/{}/{}/{}/{}:{}:{}:{}",
+                vls,
+                hex(&h.source()),
+                hex(&h.destination()),
+                h.identification(),
+                ipv4.payload().ip_number.0,
+                chan,
+                h.fragments_offset().value(),
+                if h.more_fragments() { 1 } else { 0 },
+                off(frame, ipv4.payload().payload)
+            )
+        }
+        Some(NetSlice::Ipv6(ipv6)) => {
+            let mut f = None;
+            for ext in ipv6.extensions().clone().into_iter() {
+                if let Ipv6ExtensionSlice::Fragment(x) = ext {
+                    f = Some(x);
+                    break;
+                }
+            }
+            match f {
+                Some(f) if f.is_fragmenting_payload() => format!(
+                    "6/{}/{}/{}/{}/{}/{}:{}:{}:{}",
+                    vls,
+                    hex(&ipv6.header().source()),
+                    hex(&ipv6.header().destination()),
+                    f.identification(),
+                    ipv6.payload().ip_number.0,
+                    chan,
+                    f.fragment_offset().value(),
+                    if f.more_fragments() { 1 } else { 0 },
+                    off(frame, ipv6.payload().payload)
+                ),
+                _ => "-".to_string(),
+            }
+        }
+        _ => "-".to_string(),
+    }
+}
+
+fn pres_str(r: Result<Option<IpDefragPayloadVec>, IpDefragError>, held: &mut Vec<IpDefragPayloadVec>) -> String {
+    match r {
+        Ok(None) => "none".to_string(),
+        Ok(Some(p)) => {
+            let pl = &p.payload;
+            let s = format!(
+                "done:{}:{}:n={}:d={}",
+                p.ip_number.0,
+                match p.len_source {
+                    LenSource::Ipv4HeaderTotalLen => "4",
+                    LenSource::Ipv6HeaderPayloadLen => "6",
+                    _ => "?",
+                },
+                pl.len(),
+                datastr(pl.len(), &|i| Some(pl[i]))
+            );
+            held.push(p);
+            s
+        }
+        Err(e) => format!("err:{}", err_str(&e)),
+    }
+}
+
+/// histories of raw FRAMES: sliced with the named entry point of SlicedPacket, then handed to the pool
+/// (a frame the slicer rejects is not handed over)
+fn run_pk(args: &[&str]) -> String {
+    let mut pool = IpDefragPool::<u64, u32>::new();
+    let mut held: Vec<IpDefragPayloadVec> = Vec::new();
+    let mut out: Vec<String> = Vec::new();
+    for op in args {
+        let parts: Vec<&str> = op.split(':').collect();
+        match parts[0] {
+            "k" => {
+                let ent = parts[2];
+                let chan: u32 = parts[3].parse().unwrap();
+                let ts: u64 = parts[4].parse().unwrap();
+                let frame = unhex(parts[5]);
+                let sliced = match ent {
+                    "eth" => SlicedPacket::from_ethernet(&frame),
+                    "sll" => SlicedPacket::from_linux_sll(&frame),
+                    "ip" => SlicedPacket::from_ip(&frame),
+                    _ => SlicedPacket::from_ether_type(EtherType(ent[2..].parse().unwrap()), &frame),
+                };
+                match sliced {
+                    Ok(slice) => {
+                        let key = key_str(&frame, &slice, chan);
+                        let r = pool.process_sliced_packet(&slice, ts, chan);
+                        out.push(format!("sl key={} {}", key, pres_str(r, &mut held)));
+                    }
+                    Err(_) => out.push("unsl key=- none".to_string()),
+                }
+            }
+            "r" => {
+                if let Some(p) = held.pop() {
+                    pool.return_buf(p);
+                    out.push("ret1".to_string());
+                } else {
+                    out.push("ret0".to_string());
+                }
+            }
+            "rf" => {
+                pool.return_buf(IpDefragPayloadVec {
+                    ip_number: IpNumber(253),
+                    len_source: LenSource::Ipv4HeaderTotalLen,
+                    payload: unhex(parts[1]),
+                });
+                out.push("retf".to_string());
+            }
+            _ => panic!("pk op"),
+        }
+        let last = out.pop().unwrap();
+        out.push(format!("{} {}", last, stats_str(&pool)));
+    }
+    out.join(" ; ")
+}
+
 fn run(line: &str) -> String {
     let toks: Vec<&str> = line.split_whitespace().collect();
     match toks[0] {
         "buf" => run_buf(&toks[1..]),
         "pool" => run_pool(&toks[1..]),
+        "pk" => run_pk(&toks[1..]),
         _ => panic!("bad c11 tag {}", toks[0]),
     }
 }
